@@ -35,7 +35,8 @@ OR_ = [1, 2, 2, 1]
 
 def BOUNDS(tier):
     return {'orders': '1..3', 'positions': 'every mode position', 'mismatch_kinds': ['n->n+1', 'n->1 (other side)', '1->n'],
-            'bad_types': ['None', 'str', 'list', 'dense tensor', 'ndarray', 'TT where scalar expected']}
+            'bad_types': ['None', 'str', 'list', 'dense tensor', 'ndarray', 'TT where scalar expected'],
+            'short_index_with_newaxis': 'addressed modes 0..d-1 (int / full slice / unit slice), 1..missing+1 None entries leading / trailing / interleaved, operand bonds rank 2 and rank 1'}
 
 
 def _t(N, R=None, role='a', dt='f64'):
